@@ -494,6 +494,11 @@ func c04Check(ci any, o *core.Obs) {
 			nIn++
 			o.Decided(1)
 			if !got {
+				if c.Join == 1 && c04TwoPointTurn(c.P, x.X, x.Y, hw) {
+					// the class of F-C04-two-point-contour: named apart so that the finding covers exactly it
+					o.Fail("hole-two-point-turn", "Stroke: round join at the 180 degree turn of a closed two-point contour: point %v is %.4g from the path (< w/2 - tol) but not filled; Stroke(w=%.4g,%s,%s limit %g,tol=%g) of %s", x, d, w, capNames[c.Cap], joinNames[c.Join], c.Limit, c.Tol, pstr(P))
+					return
+				}
 				o.Fail("hole", "Stroke(w=%.4g,%s,%s limit %g,tol=%g): point %v is %.4g from the path (< w/2 - tol) but not filled; path %s", w, capNames[c.Cap], joinNames[c.Join], c.Limit, c.Tol, x, d, pstr(P))
 				return
 			}
@@ -658,4 +663,32 @@ func minCurvatureRadius(subs []geom.Sub) float64 {
 		}
 	}
 	return best
+}
+
+// c04TwoPointTurn reports whether (x,y) lies within hw of an end of a closed sub-path that consists of
+// one line and its way back (M a L b z): both vertices of such a contour are 180 degree turns.
+func c04TwoPointTurn(d []float64, x, y, hw float64) bool {
+	for i := 0; i+12 <= len(d); {
+		n := 4
+		switch d[i] {
+		case canvas.QuadToCmd:
+			n = 6
+		case canvas.CubeToCmd, canvas.ArcToCmd:
+			n = 8
+		}
+		j := i
+		i += n
+		if d[j] != canvas.MoveToCmd {
+			continue
+		}
+		i = j
+		if d[i] == canvas.MoveToCmd && d[i+3] == canvas.MoveToCmd && d[i+4] == canvas.LineToCmd && d[i+7] == canvas.LineToCmd &&
+			d[i+8] == canvas.CloseCmd && d[i+11] == canvas.CloseCmd && d[i+9] == d[i+1] && d[i+10] == d[i+2] {
+			if math.Hypot(x-d[i+1], y-d[i+2]) <= hw || math.Hypot(x-d[i+5], y-d[i+6]) <= hw {
+				return true
+			}
+		}
+		i += 4
+	}
+	return false
 }
